@@ -224,7 +224,8 @@ PostMates(c, j) == {c.U[q] : q \in {z \in 1..Len(c.U) : /\ c.us[z] <= c.us[j] /\
 Glue == {",", ";", "(", ")"}
 SameCompany(c, i, j) ==
   LET pm == PreMates(c, i) IN
-  \A t \in PostMates(c, j) : t \in pm \/ t \in RangeOf(c.newk) \/ (Typ(t) = "OP" /\ Str(t) \in Glue)
+  \A t \in PostMates(c, j) : \/ t \in pm \/ t \in RangeOf(c.newk) \/ (Typ(t) = "OP" /\ Str(t) \in Glue)
+                              \/ (ElifChange(c) /\ Str(t) \in {"if", "elif", "else", ":"})   \* the rewritten header
 Matches(c, w, i, j) ==
   /\ c.T[i] = c.U[j]
   /\ c.tf[i] = 1 => c.uf[j] = 1
